@@ -29,44 +29,58 @@ impl TypeRefPatcher<'_> {
         for node in ast.as_slice() {
             let patch = match node {
                 Node::Field(field_ptr) => {
-                    let type_ref = &field_ptr.borrow().data_type;
-                    self.resolve_definition(type_ref, ast).map(PatchKind::FieldType)
+                    let field = field_ptr.borrow();
+                    let owner = field.parser_scoped_identifier();
+                    self.resolve_definition(&field.data_type, &owner, ast).map(PatchKind::FieldType)
                 }
                 Node::Interface(interface_ptr) => {
-                    interface_ptr.borrow().bases.iter()
-                        .map(|type_ref| self.resolve_definition(type_ref, ast))
+                    let interface = interface_ptr.borrow();
+                    let owner = interface.parser_scoped_identifier();
+                    interface.bases.iter()
+                        .map(|type_ref| self.resolve_definition(type_ref, &owner, ast))
                         .collect::<Option<Vec<_>>>() // None if any of the bases couldn't be resolved.
                         .map(PatchKind::BaseInterfaces)
                 }
                 Node::Parameter(parameter_ptr) => {
-                    let type_ref = &parameter_ptr.borrow().data_type;
-                    self.resolve_definition(type_ref, ast).map(PatchKind::ParameterType)
+                    let parameter = parameter_ptr.borrow();
+                    let owner = parameter.parser_scoped_identifier();
+                    self.resolve_definition(&parameter.data_type, &owner, ast).map(PatchKind::ParameterType)
                 }
-                Node::Enum(enum_ptr) => enum_ptr
-                    .borrow()
-                    .underlying
-                    .as_ref()
-                    .and_then(|type_ref| self.resolve_definition(type_ref, ast))
-                    .map(PatchKind::EnumUnderlyingType),
+                Node::Enum(enum_ptr) => {
+                    let enum_def = enum_ptr.borrow();
+                    let owner = enum_def.parser_scoped_identifier();
+                    enum_def
+                        .underlying
+                        .as_ref()
+                        .and_then(|type_ref| self.resolve_definition(type_ref, &owner, ast))
+                        .map(PatchKind::EnumUnderlyingType)
+                }
                 Node::TypeAlias(type_alias_ptr) => {
-                    let type_ref = &type_alias_ptr.borrow().underlying;
-                    self.resolve_definition(type_ref, ast)
+                    let type_alias = type_alias_ptr.borrow();
+                    let owner = type_alias.parser_scoped_identifier();
+                    self.resolve_definition(&type_alias.underlying, &owner, ast)
                         .map(PatchKind::TypeAliasUnderlyingType)
                 }
                 Node::ResultType(result_ptr) => {
+                    // Anonymous types don't know which entity they're used by, so we use the scope they were parsed in.
                     let result_type = result_ptr.borrow();
-                    let success_patch = self.resolve_definition(&result_type.success_type, ast);
-                    let failure_patch = self.resolve_definition(&result_type.failure_type, ast);
+                    let success_owner = result_type.success_type.parser_scope().to_owned();
+                    let success_patch = self.resolve_definition(&result_type.success_type, &success_owner, ast);
+                    let failure_owner = result_type.failure_type.parser_scope().to_owned();
+                    let failure_patch = self.resolve_definition(&result_type.failure_type, &failure_owner, ast);
                     Some(PatchKind::ResultTypes(success_patch, failure_patch))
                 }
                 Node::Sequence(sequence_ptr) => {
                     let type_ref = &sequence_ptr.borrow().element_type;
-                    self.resolve_definition(type_ref, ast).map(PatchKind::SequenceType)
+                    let owner = type_ref.parser_scope().to_owned();
+                    self.resolve_definition(type_ref, &owner, ast).map(PatchKind::SequenceType)
                 }
                 Node::Dictionary(dictionary_ptr) => {
                     let dictionary_def = dictionary_ptr.borrow();
-                    let key_patch = self.resolve_definition(&dictionary_def.key_type, ast);
-                    let value_patch = self.resolve_definition(&dictionary_def.value_type, ast);
+                    let key_owner = dictionary_def.key_type.parser_scope().to_owned();
+                    let key_patch = self.resolve_definition(&dictionary_def.key_type, &key_owner, ast);
+                    let value_owner = dictionary_def.value_type.parser_scope().to_owned();
+                    let value_patch = self.resolve_definition(&dictionary_def.value_type, &value_owner, ast);
                     Some(PatchKind::DictionaryTypes(key_patch, value_patch))
                 }
                 _ => None,
@@ -147,7 +161,9 @@ impl TypeRefPatcher<'_> {
         }
     }
 
-    fn resolve_definition<'a, T>(&mut self, type_ref: &TypeRef<T>, ast: &'a Ast) -> Option<Patch<T>>
+    /// Attempts to resolve the definition that `type_ref` refers to. `owner` is the scoped identifier of the entity
+    /// that the type reference belongs to; lints about the reference are reported in this entity's scope.
+    fn resolve_definition<'a, T>(&mut self, type_ref: &TypeRef<T>, owner: &str, ast: &'a Ast) -> Option<Patch<T>>
     where
         T: Element + ?Sized,
         &'a Node: TryInto<WeakPtr<T>, Error = LookupError>,
@@ -165,7 +181,7 @@ impl TypeRefPatcher<'_> {
             .and_then(|node| {
                 // We perform the deprecation check here instead of the validators since we need to check type-aliases
                 // which are resolved and erased after TypeRef patching is completed.
-                self.check_for_deprecated_type(type_ref, node);
+                self.check_for_deprecated_type(type_ref, owner, node);
 
                 if let Node::TypeAlias(type_alias) = node {
                     self.resolve_type_alias(type_alias.borrow(), ast)
@@ -198,7 +214,7 @@ impl TypeRefPatcher<'_> {
         }
     }
 
-    fn check_for_deprecated_type<T: Element + ?Sized>(&mut self, type_ref: &TypeRef<T>, node: &Node) {
+    fn check_for_deprecated_type<T: Element + ?Sized>(&mut self, type_ref: &TypeRef<T>, owner: &str, node: &Node) {
         // Check if the type is an entity, and if so, check if it has the `deprecated` attribute.
         // Only entities can be deprecated, so this check is sufficient.
         if let Ok(entity) = <&dyn Entity>::try_from(node) {
@@ -209,7 +225,7 @@ impl TypeRefPatcher<'_> {
                 let reason = deprecated.reason.clone();
                 Diagnostic::new(Lint::Deprecated { identifier, reason })
                     .set_span(type_ref.span())
-                    .set_scope(type_ref.parser_scope())
+                    .set_scope(owner)
                     .add_note(
                         format!("{} was deprecated here:", entity.identifier()),
                         Some(entity.span()),
